@@ -1142,6 +1142,9 @@ class Wavefront:
             new wavefront, [field at fpm, field after fpm]
 
         """
+        if isinstance(fpm, Wavefront):
+            fpm_dx = fpm.dx  # the returned focal-plane wavefronts carry the mask's sampling
+
         pak = to_fpm_and_back_backprop(self.data, self.dx, self.wavelength,
                                        efl=efl, fpm=fpm, fpm_dx=fpm_dx,
                                        method=method, shift=shift,
